@@ -1,7 +1,7 @@
 (* Single entry point val -> val for every modelled function; used by the extracted
    runner and by the generated in-Coq case files. *)
 From Coq Require Import ZArith List Bool.
-From Gabi Require Import Val ModArith Bytes Der Sha256 HashTool GoSem ParamsDef ZkProof Keys RangeProof NonRev Core CL.
+From Gabi Require Import Val ModArith Bytes Der Sha256 HashTool GoSem ParamsDef ZkProof Keys RangeProof NonRev Core CL Prover.
 Import ListNotations.
 Open Scope Z_scope.
 
@@ -133,6 +133,81 @@ Definition d_represent (v : val) : val := ret (
   | _ => None
   end).
 
+Definition as_osig (v : val) : option (option clsig) :=
+  match v with VN => Some None | _ => match as_sig v with Some s => Some (Some s) | None => None end end.
+Definition as_oproofS (v : val) : option (option proofS) :=
+  match v with VN => Some None | _ => match as_proofS v with Some s => Some (Some s) | None => None end end.
+
+Definition d_disclose (v : val) : val := ret (
+  match v with
+  | VL [pk; sg; attrs; disc; r; ec; vc; rands; skr; ctx; nonce; issig] =>
+    do pk <- as_pk pk; do sg <- as_sig sg; do attrs <- as_LZ attrs; do disc <- as_LZ disc;
+    do r <- as_Z r; do ec <- as_Z ec; do vc <- as_Z vc; do rands <- as_LZ rands; do skr <- as_Z skr;
+    do ctx <- as_Z ctx; do nonce <- as_Z nonce; do issig <- as_bool issig;
+    Some (of_outcome (fun cp => VL [of_LZ (fst cp); of_proofD_main (snd cp)])
+                     (disclose pk sg attrs disc r ec vc rands skr ctx nonce issig))
+  | _ => None
+  end).
+
+Definition d_get_undisclosed (v : val) : val := ret (
+  match v with
+  | VL [d; n] => do d <- as_LZ d; do n <- as_Z n; Some (of_outcome of_LZ (get_undisclosed d n))
+  | _ => None
+  end).
+
+Definition d_timestamp (v : val) : val := ret (
+  match v with
+  | VL [sg; attrs; disc] =>
+    do sg <- as_sig sg; do attrs <- as_LZ attrs; do disc <- as_LZ disc;
+    let t := timestamp_contributions (mkDb sg 0 0 [] disc [] attrs) in
+    Some (VL [of_oZ (fst t); of_LZ (snd t)])
+  | _ => None
+  end).
+
+Definition d_issue_user (v : val) : val := ret (
+  match v with
+  | VL [pk; secret; kp; vp; vpc; mu; muc; skr; pc; ctx; nonce1] =>
+    do pk <- as_pk pk; do secret <- as_Z secret; do kp <- as_oZ kp; do vp <- as_Z vp; do vpc <- as_Z vpc;
+    do mu <- as_pairsZ mu; do muc <- as_pairsZ muc; do skr <- as_Z skr; do pc <- as_oZ pc;
+    do ctx <- as_Z ctx; do nonce1 <- as_Z nonce1;
+    Some (of_outcome (fun x => x)
+      (let! b := new_credential_builder pk secret kp vp vpc mu muc in
+       let! contrib := cb_commit pk b skr pc in
+       let c := create_challenge ctx nonce1 contrib false in
+       Ok (VL [of_LZ contrib; of_proofU (cb_create_proof b skr c)])))
+  | _ => None
+  end).
+
+Definition d_sign_commitment (v : val) : val := ret (
+  match v with
+  | VL [pk; ord; u; attrs; mi; vv; e] =>
+    do pk <- as_pk pk; do ord <- as_Z ord; do u <- as_Z u; do attrs <- as_LoZ attrs; do mi <- as_pairsZ mi;
+    do vv <- as_Z vv; do e <- as_Z e;
+    Some (of_outcome of_sig (sign_commitment_and_attributes pk ord u attrs mi vv e))
+  | _ => None
+  end).
+
+Definition d_prove_signature (v : val) : val := ret (
+  match v with
+  | VL [pk; ord; sg; ctx; n2; ec] =>
+    do pk <- as_pk pk; do ord <- as_Z ord; do sg <- as_sig sg; do ctx <- as_Z ctx; do n2 <- as_Z n2; do ec <- as_Z ec;
+    Some (of_outcome (fun p => VL [of_oZ (ps_C p); of_oZ (ps_E p)]) (prove_signature pk ord sg ctx n2 ec))
+  | _ => None
+  end).
+
+Definition d_construct_credential (v : val) : val := ret (
+  match v with
+  | VL [pk; isp; secret; kp; vp; mu; ctx; n2; pr; sg; mi; wok; attrs; win] =>
+    do pk <- as_pk pk; do isp <- as_bool isp; do secret <- as_Z secret; do kp <- as_oZ kp; do vp <- as_Z vp;
+    do mu <- as_pairsZ mu; do ctx <- as_Z ctx; do n2 <- as_Z n2; do pr <- as_oproofS pr; do sg <- as_osig sg;
+    do mi <- as_map as_oZ mi;
+    do wok <- (match wok with VN => Some None | VZ 0 => Some (Some false) | VZ 1 => Some (Some true) | _ => None end);
+    do attrs <- as_LoZ attrs; do win <- as_bool win;
+    Some (of_outcome (fun sa => VL [of_sig (fst sa); of_LZ (snd sa)])
+      (construct_credential pk (fun _ => isp) (mkCb secret vp 0 0 kp mu []) ctx n2 (mkIm pr sg mi wok) attrs win))
+  | _ => None
+  end).
+
 Definition dispatch (fn : Z) (v : val) : val :=
   match fn with
   | 1501 => d_hash_commit v
@@ -146,6 +221,13 @@ Definition dispatch (fn : Z) (v : val) : val :=
   | 103 => d_prooflist_verify v
   | 104 => d_proofU_verify v
   | 105 => d_proofS_verify v
+  | 401 => d_disclose v
+  | 402 => d_get_undisclosed v
+  | 403 => d_timestamp v
+  | 601 => d_issue_user v
+  | 602 => d_sign_commitment v
+  | 603 => d_prove_signature v
+  | 604 => d_construct_credential v
   | 501 => d_cl_verify v
   | 502 => d_cl_sign v
   | 503 => d_cl_randomize v
